@@ -137,6 +137,13 @@ fn case(rng: &mut Rng, rec: &mut Rec) {
     if orig_has_cl {
         cfg.orig.push(("content-length".into(), b"7".to_vec()));
     }
+    // a chunked coding on the original request: a caller-added content-length must still be sent
+    // (C17 accepts a request carrying both; the coding decides the framing)
+    let orig_chunked = needs_body(method) && !orig_has_cl && depth == 0 && rng.chance(1, 3);
+    if orig_chunked {
+        cfg.orig.push(("transfer-encoding".into(), b"chunked".to_vec()));
+        rec.cov("original-chunked");
+    }
     let policy = if rng.chance(1, 2) { RedirectAuthHeaders::Never } else { RedirectAuthHeaders::SameHost };
     let original = split_uri(&cfg.uri);
     let mut eff = initial_eff(&cfg);
@@ -181,7 +188,9 @@ fn case(rng: &mut Rng, rec: &mut Rec) {
         let mut hop_cfg = cfg.clone();
         if let Some((_, v)) = added.iter().find(|(n, _)| n == "content-length") {
             hop_cfg.orig.retain(|(n, _)| !n.eq_ignore_ascii_case("content-length"));
-            hop_cfg.orig.push(("content-length".into(), v.clone()));
+            if !orig_chunked {
+                hop_cfg.orig.push(("content-length".into(), v.clone()));
+            }
         }
         rec.call();
         let (head, followed) = match follow_one_head(flow, &hop_cfg, &eff, &original, &hop, policy) {
@@ -238,6 +247,7 @@ impl Property for P {
         v.push(("content-length/depth0/*".into(), 5));
         v.push(("written/small-buffers".into(), 100));
         v.push(("expect/*".into(), 50));
+        v.push(("original-chunked".into(), 100));
         v.push(("despite-after-headers".into(), 50));
         v
     }
